@@ -56,7 +56,7 @@ func (limitsEngine) Name() string     { return "limits" }
 func (limitsEngine) Property() string { return "C04" }
 func (limitsEngine) NumCases(tier string) int {
 	if tier == "thorough" {
-		return 24000
+		return 60000
 	}
 	return 1400
 }
